@@ -94,6 +94,8 @@ pub fn run_grid(run: &Run, tier: Tier, profile: &str, shard: usize, nshards: usi
         for op in &pre {
           let mut w = p.clone();
           w.push(*op);
+          // building a state is subject code as well: a call that does not return must be caught by the watchdog
+          crate::crashguard::set_case(crate::crashguard::head_of(&json!({"engine": "hist", "tag": "C04", "profile": profile, "cfg": cfg, "start": st, "word": w, "oracles": or, "sync": true, "unsync": true, "diff": false})));
           let r = std::panic::catch_unwind(std::panic::AssertUnwindSafe(|| pair.run_word(st, &w, &Spec { oracles: 0, ..spec.clone() }, 0)));
           match r {
             Ok(out) => {
@@ -265,16 +267,19 @@ pub fn check(tier: Tier) -> i32 {
       } else if st.code() == Some(crate::crashguard::CRASH_EXIT) {
         let p = crate::report::verif_root().join("replays").join(format!("C04-crash-child-{}.json", pid));
         let v: Value = serde_json::from_str(&std::fs::read_to_string(&p).unwrap_or_default()).unwrap_or(Value::Null);
-        // confirm: the recorded case alone must die again in the same build profile
+        let word: Vec<Op> = serde_json::from_value(v["case"]["word"].clone()).unwrap_or_default();
+        let signature = format!("C04:{}:{}:{}", v["signature"].as_str().unwrap_or("crash"), word.last().map(op_class).unwrap_or("?"), profile);
+        // confirm: the recorded case alone must die again in the same build profile (once per signature: sixteen
+        // shards that all stop at the same kind of hang are not confirmed one after the other)
         let secs = if v["signature"].as_str().unwrap_or("").starts_with("hang") { 30 } else { 300 };
-        if v.is_null() || !crate::crashguard::confirm_replay(bin, &p, secs) {
+        let seen = run.violations.lock().unwrap().contains_key(&signature);
+        if v.is_null() || (!seen && !crate::crashguard::confirm_replay(bin, &p, secs)) {
           eprintln!("machinery: C04 child died but the recorded case {} does not reproduce", p.display());
           return 2;
         }
         evals += v["evaluations_before"].as_u64().unwrap_or(0) + 1;
-        let word: Vec<Op> = serde_json::from_value(v["case"]["word"].clone()).unwrap_or_default();
         let last = word.last().map(|o| o.short()).unwrap_or_default();
-        run.violation(Violation { property: "C04".into(), signature: format!("C04:{}:{}:{}", v["signature"].as_str().unwrap_or("crash"), word.last().map(op_class).unwrap_or("?"), profile), message: format!("[{} profile] {} (history {}; final call {})", profile, v["message"].as_str().unwrap_or(""), word_str(&word), last), replay: v["case"].clone() });
+        run.violation(Violation { property: "C04".into(), signature, message: format!("[{} profile] {} (history {}; final call {})", profile, v["message"].as_str().unwrap_or(""), word_str(&word), last), replay: v["case"].clone() });
         run.not_exhaustive("a shard ended at a subject crash");
         let _ = std::fs::remove_file(p);
       } else {
